@@ -13,6 +13,7 @@ Decided:
               position of the first frame with overflow checking
   C06.inval   after Decoder::seek succeeds the front-end discards what it had buffered before skipping forward
               (VecDeque::clear; the channel reader marks its frame fully consumed), and only then skips
+  C06.start   every new_seekable takes its seek base from stream_position() right after the metadata was read
   C06.skip    the forward skip loops of the three readers take min(buffered amount, distance) in the reader's unit,
               consume exactly that (x channels for interleaved samples) and advance the position by it
   C06.end     beyond-end and before-start requests have live error exits; the byte reader returns the requested position
@@ -105,6 +106,28 @@ def run(ctx, rep):
                         if okb:
                             found = True
         rep.check("C06.units", "%s uses the same ceil(bits/8) x channels" % path, found, loc_of(b))
+
+    # ---- C06.start: the seek base of every seekable reader is the absolute position of the first frame ------------------
+    ns = 0
+    for b in F.bodies:
+        if b.promoted is not None or b.kind == "Closure" or not re.match(r"decode::Flac(Byte|Sample|Channel)Reader::new_seekable$", strip_generics(b.path)):
+            continue
+        ns += 1
+        sp = [(bi, t) for bi, t in b.calls() if re.search(r"std::io::Seek::stream_position$", callee_name(t))]
+        rd = [(bi, t) for bi, t in b.calls() if re.search(r"metadata::BlockList::read$", callee_name(t))]
+        good = len(sp) == 1 and len(rd) == 1 and b.dominates(rd[0][0], sp[0][0])
+        if good:
+            good = False
+            for bl in b.blocks:
+                for st_ in bl["s"]:
+                    rv = st_["rv"]
+                    if rv["r"] == "agg" and rv.get("var") == "Some":
+                        sl = backward_slice(b, rv["ops"][0])
+                        if any(c is sp[0][1] for c in sl["calls"]) and not (sl["ops"] - {"Eq", "Ne"}):
+                            good = True
+        rep.check("C06.start", "%s: frames_start is the reader's absolute position right after the metadata blocks" % strip_generics(b.path), good, loc_of(b), "",
+                  "the seek base is not stream_position() taken after BlockList::read: seek-table offsets are applied relative to the wrong origin when the FLAC stream does not start at offset 0")
+    rep.floor("C06.start", "seekable constructors", ns, 3)
 
     # ---- C06.skip: the forward skip after a coarse seek counts in one unit -------------------------------------------
     for path, unit in (("decode::FlacSampleReader::seek", "interleaved"), ("decode::FlacChannelReader::seek", "frames"), ("<decode::FlacByteReader<R, E> as std::io::Seek>::seek", "bytes")):
@@ -250,3 +273,5 @@ def run(ctx, rep):
             rep.check("C06.end", "%s reports InvalidSeek when the stream ends before the target" % path, len(agg_sites(b, "Error", "InvalidSeek")) >= 1, loc_of(b))
     from rules import castlib
     rep.floor("C06.cast", "narrowing casts inspected", castlib.cast_audit(ctx, rep, "C06", ['decode.rs']), 4)
+    from rules import iolib
+    iolib.count_rules(ctx, rep, "C06")
